@@ -706,6 +706,9 @@ class DAGRunConcurrentManager(DAGRunManagerLike):
                 self.dag.input_node,
                 (self._node_storage.get_switch_result(node_id)).node_id,
                 is_oneof=dag.is_oneof,
+                # A OneOf inside the selected case that runs out of candidates fails the OneOf candidate the switch
+                # belongs to, not the whole run
+                is_nested_oneof=dag.is_nested_oneof,
             ),
         )
 
